@@ -1,5 +1,6 @@
 //! Verification hook (compiled only with `--cfg graphql_client_verif`): append what the derive
-//! resolved for one struct (paths, options, generated tokens) to the file named by
+//! resolved for one struct (paths, options, generated tokens, and the cache / pipeline-stage
+//! events of the calls made so far in this rustc process) to the file named by
 //! `GRAPHQL_CLIENT_VERIF_TRACE`, one JSON object per line.
 
 use std::io::Write;
@@ -26,6 +27,9 @@ pub(crate) fn trace_derive(ast: &syn::DeriveInput, query_path: &Path, schema_pat
         Ok(t) => t,
         Err(_) => return,
     };
+    // cache / stage events already in the log were emitted by the REAL calls of earlier derives
+    // in this (rustc) process; what the call below emits is drained afterwards
+    let pre_events = graphql_client_codegen::verif::take_events();
     let (dump, outcome) = match crate::build_graphql_client_derive_options(ast, query_path.to_path_buf()) {
         Ok(options) => {
             let dump = options.verif_dump();
@@ -41,8 +45,12 @@ pub(crate) fn trace_derive(ast: &syn::DeriveInput, query_path: &Path, schema_pat
         }
         Err(e) => (String::new(), format!("\"status\":\"options_err\",\"msg\":\"{}\"", esc(&e.to_string()))),
     };
+    let events = graphql_client_codegen::verif::take_events();
     let line = format!(
-        "{{\"event\":\"OptionsBuilt\",\"ident\":\"{}\",\"manifest_dir\":\"{}\",\"query_path\":\"{}\",\"schema_path\":\"{}\",\"dump\":\"{}\",{}}}\n",
+        "{{\"event\":\"OptionsBuilt\",\"pid\":{},\"pre_events\":[{}],\"events\":[{}],\"ident\":\"{}\",\"manifest_dir\":\"{}\",\"query_path\":\"{}\",\"schema_path\":\"{}\",\"dump\":\"{}\",{}}}\n",
+        std::process::id(),
+        pre_events.join(","),
+        events.join(","),
         esc(&ast.ident.to_string()),
         esc(&std::env::var("CARGO_MANIFEST_DIR").unwrap_or_default()),
         esc(&query_path.display().to_string()),
